@@ -1246,7 +1246,11 @@ class Evaluator:
       for k in kwargs:
         if k not in order:
           order.append(k)
-      return T('rec', rec.args[0], tuple((k, fields[k]) for k in order))
+      r_ = T('rec', rec.args[0], tuple((k, fields[k]) for k in order))
+      # a record rebuilt by replace is a construction like any other (rules look at constructor records)
+      self.calls.append(CallRecord(rec.args[0], dict((k, fields[k]) for k in order), tuple(self.path), self.cur_fq(), n, 'construct'))
+      self.calls[-1].result = r_
+      return r_
     if op == 'ext':
       args, kwargs = extsig.canonical(f.args[0], args, kwargs)
       if f.args[0] in ('jax.numpy.where', 'jax.lax.select', 'numpy.where') and len(args) == 3 and not kwargs:
@@ -1263,6 +1267,18 @@ class Evaluator:
         return r
       return self.generic_call(f, args, kwargs, n)
     if op == 'attr':
+      if f.args[1] == '_replace' and not args and kwargs and '**' not in kwargs:
+        # NamedTuple._replace on a value whose class is not tracked: if exactly one record class of the repository has all
+        # the named fields, the result is that record with the other fields passed through
+        cands = [ci for ci in self.model.classes.values() if ci.is_record and ci.is_namedtuple and
+                 set(kwargs) <= {fn_ for fn_, _, _ in ci.fields}]
+        if len(cands) == 1:
+          ci = cands[0]
+          fields = [(fn_, kwargs[fn_] if fn_ in kwargs else self.attr(f.args[0], fn_, n)) for fn_, _, _ in ci.fields]
+          r_ = T('rec', ci.fq, tuple(fields))
+          self.calls.append(CallRecord(ci.fq, dict(fields), tuple(self.path), self.cur_fq(), n, 'construct'))
+          self.calls[-1].result = r_
+          return r_
       r = self.call_method_generic(f.args[0], f.args[1], args, kwargs, n, scope)
       if r is not None:
         return r
